@@ -2,6 +2,7 @@ package layera
 
 import (
 	"fmt"
+	"go/types"
 	"os"
 	"path/filepath"
 	"sort"
@@ -33,6 +34,11 @@ type Kernel struct {
 	Stub []string
 	// SetInts assigns package-level int variables of the harness package (bounds per tier)
 	SetInts map[string]int
+	// E2E names the end-to-end scenario that confirms counterexamples of this kernel (kernels whose
+	// harness depends on stubs cannot be replayed natively)
+	E2E string
+	// RecordJen records jennifer calls as effects
+	RecordJen bool
 }
 
 // NondetRec records one nondet intrinsic call on a path.
@@ -91,6 +97,15 @@ type pathState struct {
 	Obs     []engine.Obs
 	Sprintf []sprintfRec
 	FS      []string // recorded file-system / process effects
+	Effects []Effect
+	Queue   map[string][][]engine.Value // programmed stub returns
+}
+
+// Effect is a recorded call of an environment function.
+type Effect struct {
+	Name  string
+	Args  []engine.Value
+	Types []types.Type
 }
 
 type sprintfRec struct {
